@@ -77,11 +77,17 @@ func (w *rcWorld) mkCall(t, i, slot int, op *Op, parent context.Context) *rcCall
 
 func (w *rcWorld) wait(c *rcCall) {
 	simrt.Yield("task:wait")
+	var bdone <-chan struct{}
+	if c.batchCtx != nil {
+		// the region client may drop a batch whose queueing context ended
+		bdone = c.batchCtx.Done()
+	}
 	select {
 	case r := <-c.call.ResultChan():
 		c.results = append(c.results, r)
 		c.consumedStep = w.e.Step
 	case <-c.ctx.Done():
+	case <-bdone:
 	}
 	simrt.Woke("task:wait")
 }
@@ -230,7 +236,7 @@ func runRC(p *Plan, keep bool, mode string) *Outcome {
 		if p.Sched.MaxSteps != 0 {
 			e.Knobs = p.Sched
 		}
-		e.Knobs.MaxIdle = 5 * time.Second
+		e.Knobs.MaxIdle = 10 * time.Minute // longer than any sleep of the workload
 		for _, f := range p.ConnFaults {
 			ff := *f
 			e.ConnFaults = append(e.ConnFaults, &ff)
